@@ -76,9 +76,9 @@ def run_property(prop: str, tier: str, seed: int, only_rule: str | None = None) 
                 file, _, line = (e.where or "").partition(":")
                 line = int(line) if line.isdigit() else 0
                 qual = function_at(model, file, line)
-                ctx.violation("integer-grid", Where(file or "cij", qual, line), expected="floating-point arithmetic on the temperature grid whatever its element type",
-                              found=f"integer arithmetic at {e.where} when the grid is integer-typed", explanation=f"{qual or file}: {getattr(e, 'detail', 'an integer-preserving operation on a grid that can be integer-typed')}",
-                              instance=f"{qual or file}: integer-typed grid")
+                ctx.violation("integer-typed-input", Where(file or "cij", qual, line), expected="floating-point arithmetic whatever the element type the input happens to have (whole numbers are read as integers)",
+                              found=f"integer arithmetic / truncation at {e.where} for integer-typed input", explanation=f"{qual or file}: {getattr(e, 'detail', 'an integer-preserving operation on a grid that can be integer-typed')}",
+                              instance=f"{qual or file}: integer-typed input")
             else:
                 ctx.error(e.reason, e.where)
         except RecursionError:
